@@ -229,38 +229,29 @@ func runC18(p *eng.Prog, r *eng.Report, tier string) {
 		}
 		c.r.Floor("C18.3", "error returns and payload reads of HandlePresence", nr, 2)
 	}
-	// Client.JoinPresence replaces the entry unconditionally
+	// Client.JoinPresence joins through the channel's own JoinPresence, which
+	// registers the channel under the occupant address that is REQUESTED (the
+	// Nick option may change it). A registration of its own would use the
+	// address before the options were applied and leave a key nobody removes
+	// (F140): Client.managed is stored into by Channel.JoinPresence only.
 	cj := c.fn("C18.3", "muc", "(*Client).JoinPresence")
 	if cj != nil {
-		ns := 0
-		for _, mu := range cj.MapUpdates() {
-			if k, _ := cj.FieldClass(mu.Map); k == "muc.Client.managed" && !mu.Delete {
-				ns++
-				c.onlyFacts("C18.3", cj, mu.Node, "registration of the room", []string{})
-				c.r.Check("C18.3", cj, "registered value", "K: the entry is the channel this Join returns", mu.Node.Pos(), mu.Value != nil && rootLocal(cj, mu.Value) != nil, "")
-			}
-		}
-		c.r.Floor("C18.3", "registration of the room in Client.JoinPresence", ns, 1)
-		// registered before the join request is sent
-		for _, cl := range cj.Calls("muc.Channel.JoinPresence") {
-			pt, _ := cj.Graph().Where(cl)
-			isReg := func(q eng.Point, nd ast.Node) bool {
-				as, ok := nd.(*ast.AssignStmt)
-				if !ok {
-					return false
-				}
-				for _, l := range as.Lhs {
-					if ix, ok := ast.Unparen(l).(*ast.IndexExpr); ok {
-						if k, _ := cj.FieldClass(ix.X); k == "muc.Client.managed" {
-							return true
-						}
-					}
-				}
-				return false
-			}
-			c.r.Check("C18.3", cj, "registered before joining", "O: the room is managed before the join presence is sent (its self-presence cannot be missed)", cl.Pos(), cj.Graph().MustPassBefore(cj.Graph().Entry(), pt, isReg, nil), "join can be sent before the room is registered")
+		calls := cj.Calls("muc.Channel.JoinPresence")
+		c.r.Floor("C18.3", "Client.JoinPresence joins through Channel.JoinPresence", len(calls), 1)
+		for _, cl := range calls {
+			c.onlyFacts("C18.3", cj, cl, "join through the channel", []string{})
 		}
 	}
+	nst := 0
+	for _, f := range c.allFns() {
+		for _, mu := range f.MapUpdates() {
+			if k, _ := f.FieldClass(mu.Map); k == "muc.Client.managed" && !mu.Delete {
+				nst++
+				c.r.Check("C18.30", f, "registration in Client.managed", "W: a channel is registered by (*Channel).JoinPresence only, under the occupant address it requests", mu.Node.Pos(), f.Short == "muc.(*Channel).JoinPresence", "registration in "+f.Short+": the key is not the address the options select, and nothing removes it when the room is left")
+			}
+		}
+	}
+	c.r.Floor("C18.30", "registrations in Client.managed", nst, 1)
 
 	// ---- C18.4 join / leave results ---------------------------------------------------
 	for _, k := range []struct{ fn, okArm string }{
@@ -420,6 +411,13 @@ func runC18(p *eng.Prog, r *eng.Report, tier string) {
 			continue
 		}
 		for _, mu := range f.MapUpdates() {
+			if k, _ := f.FieldClass(mu.Map); k == "muc.Client.managed" && mu.Delete && f.Short == "muc.(*Channel).LeavePresence" {
+				// an error answer to the unavailable presence: the room does not
+				// count us among its occupants (any more); only there, and only
+				// while the entry is still this channel
+				c.dom("C18.7", f, mu.Node, "membership removed when the leave is answered with an error", []string{"selectarm(recv local:*<chan error>)", "eq(recv,recv.client.managed[*])"})
+				continue
+			}
 			if k, _ := f.FieldClass(mu.Map); k == "muc.Client.managed" && mu.Delete {
 				c.r.Check("C18.7", f, "delete from Client.managed", "W: a room is forgotten only when its unavailable presence is processed (HandlePresence)", mu.Node.Pos(), false, "membership removed in "+f.Short+": later presences of the room are ignored although the occupant may still be in it")
 			}
